@@ -11,6 +11,7 @@ import (
 	"fmt"
 	"math/rand"
 	"net/netip"
+	"strings"
 	"time"
 
 	"github.com/mycoria/mycoria/m"
@@ -22,6 +23,9 @@ type nestedCfg struct {
 	prefixes []m.RoutablePrefix // lookup order: most specific first
 	univ     []netip.Addr       // index+1 = address id
 	me       netip.Addr
+	desc     string // where the configuration comes from
+
+	firstOfRegion bool // the own prefix starts its region without being the whole of it (see newNestedFrom)
 }
 
 func newNested(limOwn, limRegion, limCont int) *nestedCfg {
@@ -44,7 +48,117 @@ func newNested(limOwn, limRegion, limCont int) *nestedCfg {
 	add("fd20::%x", 3)      // another continent
 	add("fd2a:5::%x", 2)    // the same other continent, further up
 	add("fd60::%x", 2)      // a third continent
+	n.desc = "hand-made: own prefix fd13:4000::/18 inside the regions of fd10::/12 inside the continents"
 	return n
+}
+
+// newNestedFrom: the routable prefixes of a router somewhere on the map, as router.New derives them - a random
+// geo-marked router address, its country prefix (m.LookupCountryMarker) and m.GetRoutablePrefixesFor. Where the own
+// prefix lies in its region (first, in the middle, last, or the whole region) is the address's business. The universe
+// has the shape of newNested's (own prefix; own region below and above the own prefix where there is room; two other
+// regions of the continent; two other continents), so that the same generator of histories runs on it. Limits: the
+// small ones of the hand-made configuration, or (lims[0] == 0) the router's own numbers.
+func newNestedFrom(rng *rand.Rand, lims [3]int) (*nestedCfg, error) {
+	var (
+		ip     netip.Addr
+		marker *m.CountryMarkerLookup
+	)
+	for tries := 0; marker == nil; tries++ {
+		if tries > 100000 {
+			return nil, fmt.Errorf("no geo-marked router address found")
+		}
+		var b [16]byte
+		rng.Read(b[:])
+		b[0], b[1] = 0xfd, byte(0x10*(1+rng.Intn(7))+rng.Intn(16))
+		ip = netip.AddrFrom16(b)
+		if ml, err := m.LookupCountryMarker(ip); err == nil && ml != nil && ml.Prefix.Contains(ip) && ml.Prefix.Bits() >= 16 && ml.Prefix.Bits() <= 24 {
+			marker = ml
+		}
+	}
+	n := &nestedCfg{me: ip, prefixes: m.GetRoutablePrefixesFor(ip, marker.Prefix)}
+	if len(n.prefixes) < 3 {
+		return nil, fmt.Errorf("GetRoutablePrefixesFor(%s, %s) returned %d prefixes", ip, marker.Prefix, len(n.prefixes))
+	}
+	// A country prefix that is the FIRST of its region but not the whole region (BE fd13::/18 in fd13::/16, JP
+	// fd70::/17 ...) shares its base address with the region's routing prefix. On the tree as it is, Clean then trims the
+	// rest of the region to the OWN prefix's limit (it looks the limit up by RoutingPrefix.Addr(), and the buckets of the
+	// two prefixes are not kept apart by sortForCleaning) - a deviation from "within the limit after a cleanup" that this
+	// stage showed when it was written and that is reported, not listed. Such configurations keep the router's own
+	// numbers (1024 / 64 / 32), which the 24 addresses of the universe cannot reach; all other clauses and the reader
+	// calls are judged on them as everywhere.
+	n.firstOfRegion = marker.Prefix.Bits() > m.RegionPrefixBits && marker.Prefix.Addr() == netip.PrefixFrom(marker.Prefix.Addr(), m.RegionPrefixBits).Masked().Addr()
+	if lims[0] > 0 && !n.firstOfRegion {
+		for i := range n.prefixes {
+			switch rp := &n.prefixes[i]; {
+			case rp.BasePrefix == marker.Prefix:
+				rp.EntriesPerPrefix = lims[0]
+			case rp.RoutingBits == m.RegionPrefixBits && rp.BasePrefix != m.SpecialPrefix:
+				rp.EntriesPerPrefix = lims[1]
+			default:
+				rp.EntriesPerPrefix = lims[2]
+			}
+		}
+	}
+	ob := marker.Prefix.Addr().As16()
+	first := int(ob[2])<<8 | int(ob[3]) // the own prefix inside its /16 region: [first, last] of the next 16 bits
+	span := 1 << (32 - marker.Prefix.Bits())
+	last := first + span - 1
+	inOwn := func() int { return first + rng.Intn(span) }
+	below := func() int {
+		if first > 0 {
+			return rng.Intn(first)
+		}
+		if last < 0xffff {
+			return last + 1 + rng.Intn(0xffff-last)
+		}
+		return inOwn()
+	}
+	above := func() int {
+		if last < 0xffff {
+			return last + 1 + rng.Intn(0xffff-last)
+		}
+		return below()
+	}
+	anywhere := func() int { return rng.Intn(0x10000) }
+	group := 0
+	add := func(b1 byte, v func() int, k int) {
+		group++
+		for i := 1; i <= k; i++ {
+			var b [16]byte
+			x := v()
+			b[0], b[1], b[2], b[3], b[13], b[15] = 0xfd, b1, byte(x>>8), byte(x), byte(group), byte(i)
+			n.univ = append(n.univ, netip.AddrFrom16(b))
+		}
+	}
+	cont, reg := ob[1]&0xf0, ob[1]&0x0f
+	otherCont := func(not ...byte) byte {
+		for {
+			x := byte(0x10 * (1 + rng.Intn(7)))
+			ok := x != cont
+			for _, y := range not {
+				ok = ok && x != y
+			}
+			if ok {
+				return x
+			}
+		}
+	}
+	c2 := otherCont()
+	c3 := otherCont(c2)
+	add(ob[1], inOwn, 4)                                   // own prefix
+	add(ob[1], below, 4)                                   // own region, below the own prefix (if there is room)
+	add(ob[1], above, 4)                                   // own region, above the own prefix (if there is room)
+	add(cont|(reg+1+byte(rng.Intn(15)))&0x0f, anywhere, 3) // another region of the own continent
+	add(cont|(reg+1+byte(rng.Intn(15)))&0x0f, anywhere, 2) // one more
+	add(c2|byte(rng.Intn(16)), anywhere, 3)                // another continent
+	add(c2|byte(rng.Intn(16)), anywhere, 2)                // the same other continent
+	add(c3|byte(rng.Intn(16)), anywhere, 2)                // a third continent
+	var bases []string
+	for _, rp := range n.prefixes {
+		bases = append(bases, fmt.Sprintf("%s/%d*%d", rp.BasePrefix, rp.RoutingBits, rp.EntriesPerPrefix))
+	}
+	n.desc = fmt.Sprintf("m.GetRoutablePrefixesFor of router %s in %s: own prefix %s, routable prefixes (base/routing bits*limit) %v", ip, marker.Country, marker.Prefix, bases)
+	return n, nil
 }
 
 func (n *nestedCfg) id(a netip.Addr) int {
@@ -195,15 +309,39 @@ func nestedStage(c *vf.Ctx) {
 	type hist struct {
 		start int
 		desc  string
+		cfg   *nestedCfg
 	}
 	var hists []hist
-	nh := c.Pick(60, 1500)
+	// calls of the table's read-only methods between the operations (readers.go) and the configurations derived from
+	// router addresses draw from PRNGs of their own: the histories of the hand-made configuration stay what they were
+	rrng := rand.New(rand.NewSource(c.Seed + 7711))
+	crng := rand.New(rand.NewSource(c.Seed + 7712))
+	nhand, nreads, nderived, nfirst := c.Pick(60, 1500), 0, 0, 0
+	nh := nhand + c.Pick(60, 1500)
 	for k := 0; k < nh; k++ {
 		lims := [][3]int{{4, 3, 2}, {2, 2, 1}, {6, 4, 3}}[k%3]
 		n := newNested(lims[0], lims[1], lims[2])
+		if k >= nhand {
+			// the second half: routable prefixes as the router derives them from its address
+			if k%4 == 3 {
+				lims = [3]int{} // the router's own limits
+			}
+			var err error
+			if n, err = newNestedFrom(crng, lims); err != nil {
+				c.Broken("T nested: %v", err)
+				break
+			}
+			nderived++
+			if n.firstOfRegion {
+				nfirst++
+				lims = [3]int{}
+			}
+		}
+		withReaders := k%3 != 0 && len(readers.names) > 0
+		readUniv := append(append([]netip.Addr{}, n.univ...), n.me)
 		rt := m.NewRoutingTable(m.RoutingTableConfig{RoutablePrefixes: n.prefixes, RouterIP: n.me})
 		seen := map[netip.Prefix]int{}
-		hists = append(hists, hist{len(events), fmt.Sprintf("limits own/region/continent %v", lims)})
+		hists = append(hists, hist{len(events), fmt.Sprintf("%s; limits own/region/continent %v", n.desc, lims), n})
 		events = append(events, map[string]any{"ev": "reset", "after": []nroute{}, "lookups": []any{}})
 		// direct peers: some in the own prefix, some in the own region, one far away
 		peers := []int{1, 5, 9, 13, 18}
@@ -247,6 +385,21 @@ func nestedStage(c *vf.Ctx) {
 			ev["after"], ev["lookups"] = n.snapshot(rt, seen)
 			ev["ops"] = len(ops)
 			events = append(events, ev)
+			// somebody opens the dashboard's table page, the router looks a route up: a call of an exported read-only
+			// method on the live table is an operation of the history like the others
+			for r := 0; withReaders && r < 2 && rrng.Intn(4) == 0; r++ {
+				fn, seed := pickReader(rrng)
+				call, err := callReader(rt, fn, seed, readUniv)
+				if err != nil {
+					c.Fatal("T nested: %v", err)
+				}
+				ops = append(ops, call)
+				rev := map[string]any{"ev": "read", "fn": fn, "call": call, "ops": len(ops)}
+				c.Eval(1)
+				rev["after"], rev["lookups"] = n.snapshot(rt, seen)
+				events = append(events, rev)
+				nreads++
+			}
 		}
 		c.Distinct(fmt.Sprintf("nested|%d|%v", k, lims))
 		hists[len(hists)-1].desc += fmt.Sprintf("; operations %v", ops)
@@ -269,8 +422,15 @@ func nestedStage(c *vf.Ctx) {
 		}
 		desc := hists[hi].desc
 		nops, _ := ev["ops"].(int)
-		c.Violation(vf.Key("nested", ev["ev"]), fmt.Sprintf("nested routable prefixes (%s): after operation %d (%v) the real table violates C11 (RoutingTableNested_Trace line %d): table %v", firstN(desc, 600), nops, ev["ev"], rejectAt, ev["after"]),
-			map[string]any{"history": desc, "event": ev}, nil)
+		if ev["ev"] == "read" && rejectAt >= 2 {
+			prev := events[rejectAt-2].(map[string]any)
+			c.Violation(vf.Key("nested", "read", ev["fn"]), fmt.Sprintf("nested routable prefixes: the read-only call %v on the live table (operation %d of the history, between the additions, removals and cleanups) does not leave the table as the property needs it: %s (RoutingTableNested_Trace line %d; %s)",
+				ev["call"], nops, explainRead(hists[hi].cfg, prev, ev), rejectAt, firstN(desc, 500)),
+				map[string]any{"history": desc, "event": ev, "before": prev["after"]}, nil)
+		} else {
+			c.Violation(vf.Key("nested", ev["ev"]), fmt.Sprintf("nested routable prefixes (%s): after operation %d (%v) the real table violates C11 (RoutingTableNested_Trace line %d): table %v", firstN(desc, 600), nops, ev["ev"], rejectAt, ev["after"]),
+				map[string]any{"history": desc, "event": ev}, nil)
+		}
 		// carry on behind the history that failed
 		next := len(events)
 		for _, h := range hists {
@@ -282,7 +442,7 @@ func nestedStage(c *vf.Ctx) {
 		var nh2 []hist
 		for _, h := range hists {
 			if h.start >= next {
-				nh2 = append(nh2, hist{h.start - next, h.desc})
+				nh2 = append(nh2, hist{h.start - next, h.desc, h.cfg})
 			}
 		}
 		events, hists = events[next:], nh2
@@ -291,7 +451,85 @@ func nestedStage(c *vf.Ctx) {
 		}
 	}
 	c.AddTraces(nh)
-	c.Stage("T-nested", map[string]any{"histories": nh, "universe": 24, "prefix_levels": 3})
+	c.Stage("T-nested", map[string]any{"histories": nh, "universe": 24, "prefix_levels": 3, "hand_made_configuration": nhand,
+		"configurations_derived_from_router_addresses": nderived, "of_them_own_prefix_first_of_its_region_kept_at_router_limits": nfirst, "reader_calls": nreads, "reader_calls_that_changed_the_order_only": readOrderDrift})
+	c.Logf("T nested: %d histories (%d on routable prefixes derived from random router addresses), %d calls of read-only methods between the operations; order of the entries changed by a reader (all stages): %d", nh, nderived, nreads, readOrderDrift)
+}
+
+// explainRead names what TLC rejected behind a reader call (the verdict is TLC's: ReadOnly, P1 ... of
+// RoutingTableNested_Trace): routes that came or went, and lookups that are not exact.
+func explainRead(n *nestedCfg, prev, ev map[string]any) string {
+	addr := func(id int) string {
+		if id >= 1 && id <= len(n.univ) {
+			return n.univ[id-1].String()
+		}
+		if id == 0 {
+			return n.me.String()
+		}
+		return fmt.Sprintf("#%d", id)
+	}
+	var out []string
+	before, _ := prev["after"].([]nroute)
+	after, _ := ev["after"].([]nroute)
+	cnt := map[string]int{}
+	for _, r := range before {
+		cnt[fmt.Sprint(r)]++
+	}
+	for _, r := range after {
+		cnt[fmt.Sprint(r)]--
+	}
+	gone, came := 0, 0
+	for _, v := range cnt {
+		if v > 0 {
+			gone += v
+		} else {
+			came -= v
+		}
+	}
+	if gone+came > 0 {
+		out = append(out, fmt.Sprintf("%d route(s) disappeared and %d appeared (table of %d routes before, %d after)", gone, came, len(before), len(after)))
+	}
+	lks, _ := ev["lookups"].([]map[string]any)
+	bad := 0
+	for _, lk := range lks {
+		a, _ := lk["a"].(int)
+		have, best := 0, nroute{}
+		for _, r := range after {
+			if r.Dst != a {
+				continue
+			}
+			if have == 0 || (r.Src == "peer" && best.Src != "peer") || (best.Src != "peer" && (r.Hops < best.Hops || (r.Hops == best.Hops && r.Delay < best.Delay))) {
+				best = r
+			}
+			have++
+		}
+		if have == 0 {
+			continue
+		}
+		d, _ := lk["dst"].(int)
+		exact := lk["found"] == true && lk["isdst"] == true && d == a
+		if exact && lk["hops"] == best.Hops && lk["delay"] == best.Delay && (best.Src != "peer" || lk["src"] == "peer") {
+			continue
+		}
+		bad++
+		if bad > 3 {
+			continue
+		}
+		if !exact {
+			out = append(out, fmt.Sprintf("LookupNearest(%s) now returns a route to %s with isDestination=%v although the table holds %d route(s) to %s (best: %s route, %d hop(s), next hop %s)",
+				addr(a), addr(d), lk["isdst"], have, addr(a), best.Src, best.Hops, addr(best.Nh)))
+		} else {
+			out = append(out, fmt.Sprintf("LookupNearest(%s) now returns the %v route with %v hop(s), delay %v although the table holds a %s route with %d hop(s), delay %d",
+				addr(a), lk["src"], lk["hops"], lk["delay"], best.Src, best.Hops, best.Delay))
+		}
+	}
+	if bad > 3 {
+		out = append(out, fmt.Sprintf("... %d lookups of addresses that have routes are not exact", bad))
+	}
+	if len(out) == 0 {
+		return "a clause of the property does not hold behind it"
+	}
+	return strings.Join(out, "; ")
 }
 
 func firstN(s string, n int) string {
